@@ -602,6 +602,21 @@ class CausalInference(object):
                 raise ValueError(
                     "Not all parents of do variables are observed. Please specify an adjustment set."
                 )
+            if len(do) != 0:
+                # Adjusting for the parents of the do variables is the truncated
+                # factorisation: replace the CPD of every do variable by a point mass on
+                # the chosen state (whatever its parents) and do a normal inference.
+                # Summing p(variables | do, z) p(z) over the plain union of the parents is
+                # wrong for several do variables (the union can contain a do variable or a
+                # descendant of one) and undefined (nan) when p(do | z) = 0 for some z.
+                do_model = self.model.copy()
+                for var, state in do.items():
+                    cpd = do_model.get_cpds(var)
+                    cpd.values[...] = 0
+                    cpd.values[cpd.get_state_no(var, state)] = 1
+                return inference_algo(do_model).query(
+                    variables, {**evidence, **do}, show_progress=False
+                )
 
         infer = inference_algo(self.model)
 
